@@ -1,0 +1,22 @@
+//go:build verif
+
+package redis
+
+import (
+	"github.com/go-redis/redis/v8"
+
+	"github.com/projecteru2/core/types"
+	"github.com/projecteru2/core/utils"
+)
+
+// VerifNewWithClient builds a Rediaron on a client configured by the caller. The verification
+// harness uses it to switch off go-redis' automatic command retries (MaxRetries: -1): a command
+// whose reply is late (loaded machine) would otherwise be sent again although the server has
+// already executed it, which makes non-idempotent calls (DECR of a processing marker) apply twice.
+func VerifNewWithClient(cli *redis.Client, config types.Config) (*Rediaron, error) {
+	pool, err := utils.NewPool(config.MaxConcurrency)
+	if err != nil {
+		return nil, err
+	}
+	return &Rediaron{cli: cli, config: config, pool: pool, db: config.Redis.DB}, nil
+}
